@@ -5,7 +5,7 @@
 // https://opensource.org/licenses/MIT.
 
 use std::error::Error;
-use std::fs::{self, Metadata};
+use std::fs::Metadata;
 use std::io::{stderr, Write};
 use std::time::{Duration, SystemTime, UNIX_EPOCH};
 
@@ -125,7 +125,18 @@ pub struct NewerOptionMatcher {
 
 impl NewerOptionMatcher {
     pub fn new(x_option: &str, y_option: &str, path_to_file: &str) -> Result<Self, Box<dyn Error>> {
-        let metadata = fs::metadata(path_to_file)?;
+        Self::new_with_follow(x_option, y_option, path_to_file, Follow::Always)
+    }
+
+    /// Like `-newer`, `-newerXY` takes the reference file's own time stamp
+    /// when the reference is a symbolic link and neither -H nor -L is given.
+    pub fn new_with_follow(
+        x_option: &str,
+        y_option: &str,
+        path_to_file: &str,
+        follow: Follow,
+    ) -> Result<Self, Box<dyn Error>> {
+        let metadata = follow.root_metadata(path_to_file)?;
         let x_option = NewerOptionType::from_str(x_option);
         let y_option = NewerOptionType::from_str(y_option);
         // -newerXY compares the X timestamp of the entry with the Y timestamp
